@@ -461,6 +461,14 @@ def queue_oracle(case, steps):
             return "equal-time-different-types"
         return "equal-time-equal-type-different-names"
 
+    # the documented priority at equal times, by member *name* (values come from the real enum)
+    chain = ["TASK_FINISHED", "TASK_PLACEMENT", "SCHEDULER_START"]
+    name_of = {v: n for n, v in all_types()}
+
+    def rank(i):
+        n_ = name_of.get(specs[i]["etype"])
+        return chain.index(n_) if n_ in chain else None
+
     shadow = Counter()
     last_pop = None  # key of the previous pop while no add/retime/remove intervened
     dirty = False  # a queued event was re-timed in place and the heap not yet rebuilt (API misuse)
@@ -499,6 +507,12 @@ def queue_oracle(case, steps):
                     if key(y) < key(out):
                         bad.append((f"queue:pop-not-minimal {tdesc(out, y)}", {"step": n, "popped": out, "smaller_pending": y}))
                         break
+                if not dirty and rank(out) is not None:
+                    for y in shadow.elements():
+                        if specs[y]["time"] == specs[out]["time"] and rank(y) is not None and rank(y) < rank(out):
+                            bad.append((f"queue:type-priority {chain[rank(out)]}-popped-before-pending-{chain[rank(y)]}",
+                                        {"step": n, "popped": out, "pending": y}))
+                            break
                 if not dirty and last_pop is not None and key(out) < last_pop:
                     bad.append(("queue:pops-decrease", {"step": n, "popped": out}))
                 last_pop = None if dirty else key(out)
@@ -847,7 +861,12 @@ def run(chk: common.Check):
                 if failures:
                     report(chk, c, failures, seen2)
 
-        common.broken_obligation(chk, broken, search)
+        chk.extra["broken_obligations"] = broken
+        if any(v.get("found_input") for v in chk.violations):
+            # the main pass already holds concrete failing inputs for the real code
+            pass
+        else:
+            common.broken_obligation(chk, broken, search)
 
     chk.exhaustive = False
     chk.rule = (
@@ -872,8 +891,13 @@ def replay(path) -> int:
     """Re-run one replay file against the repository alone. Exit code 1 = reproduced."""
     data = json.loads(open(path).read())
     if "case" not in data:
+        # a broken obligation without a failing input: re-check the obligations themselves
+        # (tables regenerated from the repository, lake build, axiom audit)
         print("replay: this file records a broken obligation without a failing input:", data.get("broken"))
-        return 1 if data.get("found_input") is False else 0
+        chk = common.Check("C16", "quick", TECHNIQUE)
+        broken = chk.lean_obligations()
+        print("obligations now:", broken or "all discharged")
+        return 1 if broken else 0
     case = data["case"]
     impl()
     obs, failures = judge(case)
